@@ -317,7 +317,7 @@ pub fn run(ctx: &Ctx, rep: &mut Report) {
     rep.prop(
         "latest-volume-http",
         "proptest: production-size bucket shapes (newest 1..=999, populated 0..=999, boundary values boosted) served by the loopback S3 simulator (one object listing per populated directory, distinct increasing LastModified); get_latest_volume must return the newest directory, report exactly the number of listing requests the simulator logged, stay within the logarithmic call bound and never name a directory outside 1..=999 (the simulator applies S3's plain string-prefix / byte-order semantics); non-trivial = at least one empty directory",
-        ctx.tier.pick(300, 20_000),
+        ctx.tier.pick(800, 20_000),
         || {
             let pos = || prop_oneof![6 => 1usize..=999, 1 => Just(1usize), 1 => Just(999usize), 1 => Just(998usize), 1 => 1usize..=5, 1 => 995usize..=999];
             let cnt = prop_oneof![6 => 1usize..=999, 1 => Just(1usize), 1 => Just(999usize), 1 => Just(0usize), 2 => 1usize..=20, 1 => 980usize..=999];
